@@ -22,6 +22,7 @@ TICK = 0.25
 NONE = -1
 NOEXP = 9001
 ABSENT = {'st': -9, 'due': NONE, 'sd': 0}
+NONE_ST = 77                   # code of the state None (Input)
 KINDS = ['counter', 'input', 'timer', 'inputexp', 'fsm', 'td', 'ts', 'gauge']
 EVENTS = {'counter': ['inc', 'dec', 'reset', 'put'], 'input': ['put'], 'timer': ['start', 'stop', 'toggle'],
           'inputexp': ['put'], 'fsm': ['e1', 'e2', 'e3'], 'td': ['reconfig'], 'ts': ['reconfig'],
@@ -78,7 +79,10 @@ def stimuli(tier, seed, ctx):
                     'preseed': rnd.random() < 0.5, 'early_abort': rnd.random() < 0.12,
                     # a handler fails while the simulation is already stopping (stop requested,
                     # clean-up not yet run)
-                    'late_fail': rnd.randint(1, n) if rnd.random() < 0.2 else 0})
+                    'late_fail': rnd.randint(1, n) if rnd.random() < 0.2 else 0,
+                    # an event that reaches a block while the blocks are being stopped (sent by the
+                    # stop_data of an output block), i.e. after the simulator's own final save
+                    'stop_event': rnd.randint(1, n) if rnd.random() < 0.25 else 0})
     return out
 
 
@@ -86,7 +90,7 @@ def _mk(edzed, kind, name, probe, **kw):
     if kind == 'counter':
         return edzed.Counter(name, modulo=7, initdef=2, **kw)
     if kind == 'input':
-        return edzed.Input(name, initdef=1, allowed=[0, 1, 2, 3, 4, 5], **kw)
+        return edzed.Input(name, initdef=1, allowed=[0, 1, 2, 3, 4, 5, None], **kw)
     if kind == 'timer':
         return edzed.Timer(name, t_on=3 * TICK, t_off=5 * TICK, **kw)
     if kind == 'inputexp':
@@ -138,6 +142,8 @@ def _outcode(out, kind):
         return {True: 1, False: 0}.get(out, -8) if isinstance(out, bool) else -8
     if kind == 'fsm':
         return {'s1': 1, 's2': 2, 's3': 3}.get(out, -8)
+    if out is None and kind == 'input':
+        return NONE_ST
     return out if isinstance(out, int) and not isinstance(out, bool) else -8
 
 
@@ -156,6 +162,8 @@ def _enc(st, kind, wall0, edzed=None):
         menu = _menu_state(edzed, kind)
         return {'st': menu.index(st) + 1 if st in menu else -8, 'due': NONE, 'sd': 0}
     if kind in ('counter', 'input', 'gauge'):
+        if st is None and kind == 'input':
+            return {'st': NONE_ST, 'due': NONE, 'sd': 0}        # None is a state like any other
         return {'st': st if isinstance(st, int) and not isinstance(st, bool) else -8, 'due': NONE, 'sd': 0}
     state, exp, sdata = st
     names = {'timer': ['off', 'on'], 'inputexp': ['expired', 'valid'], 'fsm': ['s1', 's2', 's3']}[kind]
@@ -220,6 +228,15 @@ def execute(stim):
             if stim['fail_start']:
                 FailStart('zz_failing')
             edzed.Not('keepalive').connect(blks[0])
+            se = stim.get('stop_event') or 0
+            # (not after a failed start: "after every handled event the storage holds the state" and
+            # "nothing is written if the start-up failed" contradict each other there)
+            if se and kinds[se - 1] in ('counter', 'input', 'gauge') and not stim.get('early_abort') \
+                    and not stim['fail_start']:
+                edzed.OutputFunc('zz_final', func=lambda value: value, on_error=None, stop_data={'value': 3},
+                                 on_success=edzed.Event(blks[se - 1], 'put'))
+            else:
+                se = 0
             live = lambda: [_snap(edzed, b, k, WALL0) for b, k in zip(blks, kinds)]
             outs = lambda: [repr(b.output) for b in blks]
 
@@ -276,7 +293,8 @@ def execute(stim):
                                   'store': _store(storage, blks, kinds, WALL0),
                                   'ts': NONE if 'edzed-stop-time' not in storage else round(
                                       (storage['edzed-stop-time'] - WALL0) / TICK),
-                                  'live': [dict(ABSENT) for _ in blks]})
+                                  'live': [dict(ABSENT) for _ in blks], 'sev': 0,
+                                  'after': [dict(ABSENT) for _ in blks]})
                     snaps.append((copy.deepcopy(storage), wtick(clock), outs()))
                     return
                 state['running'] = True
@@ -305,7 +323,8 @@ def execute(stim):
                             else:
                                 edzed.ExtEvent(blk, 'reconfig').send(span=TS_MENU[op['v'] % len(TS_MENU)])
                         elif op['e'] == 'put':
-                            edzed.ExtEvent(blk, 'put').send(op['v'])
+                            k_ = kinds[op['b'] - 1]
+                            edzed.ExtEvent(blk, 'put').send(None if k_ == 'input' and op['v'] == 5 else op['v'])
                         else:
                             edzed.ExtEvent(blk, op['e']).send()
                         outcome = 'ok'
@@ -350,7 +369,8 @@ def execute(stim):
                 ts = storage.get('edzed-stop-time')
                 lines.append({'ev': 'stop', 't': wtick(clock), 'kind': 'regular',
                               'store': _store(storage, blks, kinds, WALL0),
-                              'ts': NONE if ts is None else round((ts - WALL0) / TICK), 'live': before})
+                              'ts': NONE if ts is None else round((ts - WALL0) / TICK), 'live': before,
+                              'sev': se, 'after': live()})
                 snaps.append((copy.deepcopy(storage), wtick(clock), outs()))
             finally:
                 edzed.AddonPersistence.event = orig_pevent
